@@ -15,6 +15,11 @@ import (
 )
 
 func Parse(r io.ReadSeeker) (Exif, error) {
+	// The header search counts from where the stream stands now.
+	start, err := r.Seek(0, io.SeekCurrent)
+	if err != nil {
+		return Exif{}, err
+	}
 	h, err := tiff.ScanTiffHeader(r, imagetype.ImageUnknown)
 	if err != nil {
 		return Exif{}, err
@@ -23,7 +28,7 @@ func Parse(r io.ReadSeeker) (Exif, error) {
 	ir := NewIfdReader(Logger)
 	defer ir.Close()
 
-	if _, err = r.Seek(int64(h.TiffHeaderOffset), 0); err != nil {
+	if _, err = r.Seek(start+int64(h.TiffHeaderOffset), io.SeekStart); err != nil {
 		return ir.Exif, err
 	}
 	if err := ir.DecodeTiff(r, h); err != nil {
